@@ -1,5 +1,6 @@
 import Iscp.Gen.SegGlue
 import Iscp.Model.Seg
+import Iscp.Lemmas.Seg
 /-
 C14, glue obligations over facts REGENERATED from transport/quic, transport/webtransport and
 internal/segment/package.go on every run (tie K1).  They state that the Go glue instantiates the model
@@ -17,6 +18,18 @@ theorem C14.glue_fresh_seq : ∀ g ∈ all, g.seqInitMaxUint32 = true ∧ 0 < g.
 theorem C14.glue_purge_periodic : ∀ g ∈ all, g.purgeLoops = 1 ∧ g.purgePeriodic = 1 := by decide
 
 theorem C14.glue_recv_feeds_all : ∀ g ∈ all, g.recvLoops = 1 ∧ g.recvFeedsAll = 1 ∧ g.receiveCallsBuffer = true := by decide
+
+/-- with the payload size the Go glue actually uses (regenerated constants), no emitted datagram exceeds the
+    transport's maximum datagram frame size -/
+theorem C14.glue_datagram_fits (seq : Nat) (m : Bytes) (ds : List Dg)
+    (h : segments (maxDatagramFrameSize - headerSize).toNat seq m = some ds) :
+    ∀ d ∈ ds, (d.encode.length : Int) ≤ maxDatagramFrameSize := by
+  intro d hd
+  have hc : headerSize = 8 ∧ 8 ≤ maxDatagramFrameSize ∧ 0 < (maxDatagramFrameSize - headerSize).toNat := by decide
+  have := (sent_payloads_fit_lem _ seq m hc.2.2 ds h d hd).2.1
+  have h8 := hc.1
+  have hle := hc.2.1
+  omega
 
 /-- the model's initial sequence number is the Go initial value (math.MaxUint32) -/
 theorem C14.glue_seq_init : seqInit = 4294967295 := rfl
